@@ -20,6 +20,7 @@
 #include <cocls/future_conv.h>
 #include <cocls/coro_storage.h>
 #include <cocls/suspend_point.h>
+#include <cocls/resume.h>
 
 namespace hz {
 
